@@ -132,7 +132,7 @@ impl Prop for C03 {
     type Case = Case;
     const ID: &'static str = "C03";
     const NUM: u64 = 3;
-    const RULE: &'static str = "random leg: AdjacencyListWeighted<usize> digraphs (order 1..12 quick / 1..40 thorough; uniform densities and 15 structured families; weight classes all-zero, 0/1, 0..10, 0..999, up to 2^40) with empty/single/multiple distinct sources; enum leg: every digraph of order <=3 (quick) / <=4 (thorough) with each ordered pair absent or weighted 0,1,2, times a fixed list of source sets. About one random case in 60..150 has a large order (17..140, incl. 63..66 and 127..130). Non-trivial = a textbook lazy-deletion Dijkstra pops at least one superseded heap entry before the last reachable vertex is settled, or a zero-weight arc lies on a shortest path; distinct = distinct serialised case.";
+    const RULE: &'static str = "random leg: AdjacencyListWeighted<usize> digraphs (order 1..12 quick / 1..40 thorough; uniform densities and 15 structured families; weight classes all-zero, 0/1, 0..10, 0..999, up to 2^40) with empty/single/multiple distinct sources; enum leg: every digraph of order <=3 (quick) / <=4 (thorough) with each ordered pair absent or weighted 0,1,2, times a fixed list of source sets. About one random case in 60..150 has a large order (17..140, incl. 63..66 and 127..130). The Dijkstra / DijkstraDist iterators are also driven through next()-then-count/last/fold/nth/collect at several split points, and clones taken mid-iteration must continue identically (order <= 40). Non-trivial = a textbook lazy-deletion Dijkstra pops at least one superseded heap entry before the last reachable vertex is settled, or a zero-weight arc lies on a shortest path; distinct = distinct serialised case.";
     const ASSUMPTIONS: &'static [&'static str] = &[
         "walk sums stay far below usize::MAX (weights <= 2^40, order <= 40)",
         "sources are distinct and in range, as the property requires",
